@@ -170,6 +170,25 @@ Theorem C03_single_rule_protocol : forall (D : Type) (restore : dg -> D) (u : ru
 Proof. exact single_rule_protocol. Qed.
 Print Assumptions C03_single_rule_protocol.
 
+(* a composite user rule that delegates to an inner verifier with raise_on_failure=True: the
+   inner VerificationError is a ValueError, so the rule passes exactly when every inner condition
+   holds, never raises a foreign exception, and an outer verifier WITHOUT raise_on_failure
+   returns a boolean on it *)
+Theorem C03_nested_rule_iff : forall s bs g, wf g ->
+  (rejects (ubehav_fn (UNested bs) (AOpt s g)) = false <-> forall b, In b bs -> cond b g) /\
+  ubehav_fn (UNested bs) (AOpt s g) <> ROther.
+Proof. exact nested_rule_iff. Qed.
+Print Assumptions C03_nested_rule_iff.
+
+Theorem C03_nested_rule_outer_boolean : forall ad native bs g, wf g ->
+  let v := verify (restore_of ad) false [denote (CU native (UNested bs))] g in
+  match ad, native with
+  | AdNx, false => True
+  | _, _ => (v = Accept <-> forall b, In b bs -> cond b g) /\ (v = Accept \/ v = Reject)
+  end.
+Proof. exact nested_rule_outer_boolean. Qed.
+Print Assumptions C03_nested_rule_outer_boolean.
+
 (* ---------------------------------------------------------------------------------------- *)
 (* 5. rules written for domain graphs are given the restored domain graph                    *)
 (* ---------------------------------------------------------------------------------------- *)
@@ -276,6 +295,13 @@ Proof.
   split; [|vm_compute; repeat split].
   intros r H. simpl in H. destruct H as [<-|[<-|[<-|[]]]]; vm_compute; discriminate.
 Qed.
+
+(* a composite rule under the NetworkX adapter (domain level): rejected with a boolean *)
+Example ex_nested :
+  verify (restore_of AdNx) false (map denote [CU false (UNested [BHasRoot; BNoCycle])]) ex_cyc = Reject /\
+  verify (restore_of AdNx) false (map denote [CU false (UNested [BHasRoot; BNoCycle])]) ex_dag = Accept /\
+  verify (restore_of AdIdentity) true (map denote [CU true (UNested [BNoCycle])]) ex_cyc = RaiseVerification.
+Proof. vm_compute. repeat split. Qed.
 
 (* a rule raising a foreign exception is outside verify_iff, and its exception escapes *)
 Example ex_other : verify (restore_of AdIdentity) false (map denote [CU false (UConst ROther)]) ex_dag = RaiseOther.
